@@ -14,6 +14,17 @@ CLAIMED = {
              "seconds + nanoseconds (Linux); std Duration arithmetic assumed as documented.",
         technique="Coq proof (lia over Z div/mod) + translator-pinned constants + extracted-model correspondence",
         design="4 C18"),
+    "C17": dict(
+        text="Theorems over the language table regenerated from language.rs on every run: tag(from_tag(tag c)) = tag c for all "
+             "65,536 codes (vm_compute lifted by forallb_forall), every table tag maps to its own code and back, 31 reference "
+             "Windows identifiers, and - for ALL strings, by induction over the table - unknown language => neutral and "
+             "known language with unknown region never yields the code of another regional variant; table sortedness "
+             "(binary search = first match) and code ranges are proof obligations; correspondence on all codes + "
+             "bounded-exhaustive/random tags through the public API.",
+        note="Trusted: Coq kernel, translate.py (table parser), extraction, harness; binary_search_by_key assumed correct on a "
+             "strictly sorted table.",
+        technique="Coq proof (structural induction + vm_compute over generated table) + extracted-model correspondence",
+        design="4 C17"),
 }
 REASON_PENDING = "check not built yet in this round; see DESIGN.md section 4 for the plan"
 
